@@ -2223,6 +2223,18 @@ HAND_SHAPES = [
     ("add", ("mul", _n(2), _A), ("mul", _n(3), _B)),
     ("mul", _A, ("mul", _B, _C)),
     ("eq", _B, ("add", _A, _C)),
+    # constant (symbol-free) sums as numerator, denominator, factor, base, subtrahend: a number-valued operand is not an atom
+    ("div", ("add", _n(1), ("sqrt", _n(2))), _A),
+    ("div", ("sub", ("sqrt", _n(5)), _n(1)), _n(2)),
+    ("div", ("add", _n(1), ("sqrt", _n(5))), ("add", _A, _B)),
+    ("div", _A, ("add", _n(1), ("sqrt", _n(2)))),
+    ("mul", ("add", _n(1), ("sqrt", _n(2))), _A),
+    ("mul", _A, ("sub", _n(1), ("exp", _n(-1)))),
+    ("pow", ("add", _n(1), ("sqrt", _n(2))), _A),
+    ("pow", _A, ("add", _n(1), ("sqrt", _n(2)))),
+    ("sub", _A, ("add", _n(1), ("sqrt", _n(2)))),
+    _neg(("add", _n(1), ("sqrt", _n(2)))),
+    ("div", ("mul", ("add", _n(1), ("sqrt", _n(2))), _A), _B),
     # operator nodes as the base / exponent / operand of a power, quotient, product or difference: the bracketing of a
     # derivative or an integral inside an arithmetic node (the catalogue forms only have them at the top of a side).
     # No product with a derivative on the left and no nested derivative: how far a d/dx prefix reaches into a product is a
